@@ -2,6 +2,8 @@ import I2N.Lemmas.TravReady
 import I2N.Lemmas.TravClean
 import I2N.Model.TravMon
 import I2N.Extracted.GenClean
+import I2N.Lemmas.GenLazy
+import I2N.Lemmas.GenShared
 /-!
 # C05 — States are removed only after every dependant finished, and only if asked
 -/
@@ -777,5 +779,56 @@ example : genCleanDecision false false false true ["vm1", "vm2"] (fun _ => "r") 
   ⟨rfl, rfl, rfl, rfl, rfl⟩
 
 end Regenerated
+
+end I2N.Props.C05
+
+-- ==== pxloc ====
+/-! ## Translator tie: `shared_involved_workers` is the Python source (`harness/pygen_pxloc.py`)
+
+`Extracted/GenInvolved.lean` is regenerated on every run from the CURRENT source of the property
+`TestNode.shared_involved_workers` (avocado_i2n/cartgraph/node.py) — the set `default_clean_decision` runs over and
+`is_started` / `is_finished` compare with for the threshold `-1`.  Translated (nothing pinned): the union of the workers of
+the two `picked_by` registers, the nested comprehension over `TestSwarm.run_swarms` and the workers of each swarm with the
+filter `w.id in worker_ids`, `set(…)`.  Atoms (trusted): `<register>.get_workers()` = `regWorkers <register> none`; a
+worker's id stands for the worker (register keys are worker indices in the model); `TestSwarm.run_swarms` = the swarms in
+dictionary order, each standing for the list of its workers. -/
+namespace I2N.Props.C05
+open I2N.Trav
+open I2N.Extracted.GenInvolved
+
+/-- **The hand written `involved` is the Python source of `shared_involved_workers`**, for every graph, state and node
+and EVERY division of the workers into swarms.  Hypothesis `hs`: the swarms, one after the other, list the workers
+`0 … |workers|-1` in the exported order (this is how `harness/travlib.py` numbers them: swarm by swarm; it excludes
+divisions that forget or repeat a worker).  The equality is one of LISTS (hence of the sets they stand for). -/
+theorem involved_matches_source (g : Graph) (s : State) (n : Nat) (swarms : List (List Nat))
+    (hs : swarms.flatten = List.range g.workers.length) :
+    involved g s n =
+      genSharedInvolvedWorkers (regWorkers (s.cr (g.node n).cls).pickedBySetup none)
+        (regWorkers (s.cr (g.node n).cls).pickedByCleanup none) swarms := by
+  rw [I2N.GenLazy.genSharedInvolvedWorkers_eq, hs]
+  rfl
+
+/-- non-vacuity of `hs`: three workers in two swarms -/
+example : ([[0, 1], [2]] : List (List Nat)).flatten = List.range 3 := by decide
+
+/-- the generated definition computes: the workers of either register, each once, in swarm order -/
+example : genSharedInvolvedWorkers [2] [0, 2] [[0, 1], [2, 3]] = [0, 2] ∧
+    genSharedInvolvedWorkers [] [] [[0, 1], [2, 3]] = [] ∧
+    genSharedInvolvedWorkers [1] [] [[0], [], [1]] = [1] := by decide
+
+/-- **The hand written `sharedResults` is the Python source of `shared_results`**: the node's own results followed by
+those of its bridged copies in order, for every graph, state and node.  `self.bridged_nodes` = the other copies of the
+class (`(g.copies n).tail`; none for a flat node).  No hypotheses. -/
+theorem sharedResults_matches_source (g : Graph) (s : State) (n : Nat) :
+    sharedResults g s n = genSharedResults (s.nd n).results (g.copies n).tail (fun m => (s.nd m).results) := by
+  rw [I2N.GenShared.genSharedResults_eq, sharedResults]
+  conv => lhs; rw [I2N.GenShared.copies_cons g n]
+  rw [List.flatMap_cons]
+
+/-- the generated definition computes: own results first, then copy by copy -/
+example :
+    genSharedResults [{ name := "a", status := "PASS", uid := "1" }] [4, 7]
+      (fun m => if m == 7 then [{ name := "b", status := "FAIL", uid := "2" }] else []) =
+      [{ name := "a", status := "PASS", uid := "1" }, { name := "b", status := "FAIL", uid := "2" }] := by decide
 
 end I2N.Props.C05
